@@ -81,7 +81,11 @@ def harness_files(frag, solo):
     if solo:
         want = set(frag.get("files", []))
         files = [fn for fn in files if fn in want or fn.startswith("common")]
-    return [os.path.join(d, fn) for fn in files]
+    out = [os.path.join(d, fn) for fn in files]
+    # "also": files of other harness dirs (relative to /verif/harness) shared with this one
+    for rel in frag.get("also", []):
+        out.append(os.path.join(VERIF, "harness", rel))
+    return out
 
 
 def run_rewriter(mode, pkgdir, outdir, frag):
